@@ -5,7 +5,7 @@
     fsrun <exclusive 0|1> <old hex|none> <event>…
          events: `S <fail|-> <chunks>` (SAVE) | `B <fail|-> <chunks>` (BGSAVE) | `T <i>` (run i makes its next file operation)
                                         -> dump=<hex|none> tmp=<hex|none> flag=<0|1> procs=<n> log=<newest,…|.> nosavebg=<0|1>
-    krun <atomic 0|1> <t> <key> <state> ; <ev> ; <ev> …
+    krun <atomic 0|1> <itemsFirst 0|1> <t> <key> <state> ; <ev> ; <ev> …
          state: `N` | `<deadline|-> <type> <value tokens>`;  ev: `s` (saver read step) | `set <dl|-> <type> <value>` | `del` |
          `ttl <dl|->` | `mut <type> <value>` | `zmut <flat hexlist member|8 LE score bytes…>`
                                         -> none | pending | rec <consistent 0|1> <disturbed 0|1> <zlen|-> <file hex> <dl|-> <type> <value tokens>
@@ -88,13 +88,13 @@ def step (c : Cfg) (ws : List String) : Cfg × String :=
         (c, s!"dump={showOpt (dumpContent s.fs)} tmp={showOpt (tmpContent s.fs)} flag={b s.flag} procs={s.procs.length} log={lg} nosavebg={b (noSaveDuringBgsave (x == "1") (initSys ob) es)}")
       else (c, "bad-op")
     | _, _ => (c, "bad-op")
-  | "krun" :: a :: t :: k :: rest =>
+  | "krun" :: a :: itf :: t :: k :: rest =>
     match t.toNat?, ofHexFast k, splitOnTok ";" rest with
     | some t, some k, st :: evToks =>
       match parseState st, evToks.mapM parseKEv with
       | some st, some evs =>
-        if a == "0" || a == "1" then
-          let m := krun (a == "1") (kinit st) evs
+        if (a == "0" || a == "1") && (itf == "0" || itf == "1") then
+          let m := krun (a == "1") (itf == "1") (kinit st) evs
           match m.phase with
           | .done none => (c, "none")
           | .done (some r) =>
